@@ -39,6 +39,8 @@ def specs(tier, seed):
 
 
 def build(sp):
+    if sp[0] == 'sim':
+        return sim.build_spec(sp, ('C15',))
     _, rule, topo, tg, units, sym = sp[:6]
     return rules.RuleApply(rule, topo=topo, target=tg, units=units, tag=':units' if units else '', sym=sym,
                            twice=(len(sp) > 6 and sp[6]))
@@ -56,8 +58,10 @@ BOUNDS = {
              'compute_torque / compute_electric_current; each rule object also applied a second time after a first application in another state',
     'thorough': 'quick + every unit of Time/AngularPosition for windows and targets, self-locking chains T4/T7',
 }
-OUTSIDE = ('configuration magnitudes (motor constants, efficiencies) are concrete per topology; whole controlled simulations '
-           'are covered by C14/C01 runs, not here; tachometer of StartLimitCurrent on the motor (the formula is the motor\'s law)')
+OUTSIDE = ('configuration magnitudes (motor constants, efficiencies) are concrete per topology; whole controlled simulations with the '
+           'built-in rules (tried: StartLimitCurrent in Solver.run with symbolic state does not finish - the square root makes the duty cycle an '
+           'unconstrained auxiliary for the feasibility solver and the lock/saturation forks multiply; the single-application cross-check '
+           'with the motor laws is decided for all states instead); tachometer of StartLimitCurrent on the motor (the formula is the motor\'s law)')
 STUBS = ['start_limit_current.np.sqrt -> fresh y>=0, y*y==x; negative argument = domain-event path replayed concretely',
          'gearpy.units.unit_base.fabs -> ite']
 ASSUMPTIONS = ['doubles as reals', 'window edges: exact when both operands share a unit; a relative 1e-6 don\'t-care band when '
